@@ -67,6 +67,10 @@ def check(ctx):
         for then in ("rst", "resume"):
             for at in ((1, 3, 5) if thorough else (1 + (r + ctx.seed) % 3,)):
                 cases.append({"id": len(cases), "script": [], "stall": {"at": at, "then": then, "tail": 3}, "n": 0, "maxretry": r, "proto": "tcp", "big": True})
+    # a sink that is slow, not dead: it reads nothing for six (thorough: also twelve) seconds, then reads on - nothing broke, so
+    # everything handed over arrives, once, whole
+    for hold in ((5600,) if not thorough else (5600, 12000)):
+        cases.append({"id": len(cases), "script": [], "stall": {"at": 2, "then": "resume", "tail": 3, "hold": hold}, "n": 0, "maxretry": 2, "proto": "tcp", "big": True})
     # the sink has read everything, then aborts the connection (RST) and goes on listening: nothing was lost, nothing is sent twice
     for r in (0, 1, 2):
         for k in ((2, 4, 6) if not thorough else range(2, n + 1)):
